@@ -103,6 +103,7 @@ def run_case(case):
     run.scripted = bool(case.get("label_script"))
     if run.scripted:
         PLAN["label_script"] = wd.make_label_script(case["label_script"], n_points, K)
+        PLAN["label_script_then"] = case["label_script"].get("then")
     for k, v in (case.get("task_plan") or {}).items():
         PLAN["task"][int(k)] = v
     if case.get("mp"):
@@ -301,9 +302,14 @@ def evaluate(run, want=None):
     complete = res is not None
     if run.exc is not None and type(run.exc).__name__ == "RoundBudgetExceeded":
         I.v("C09", "the run went beyond its iteration limit: %s (aborted by the harness after %d rounds)" % (run.exc, R))
-    scripted = bool(getattr(run, "scripted", False))
-    if scripted:
+    # "scripted" from here on: the LAST labelling of the run was forced by the harness (the final-result oracles on cost and
+    # optimality do not apply then); per-round oracles look at each step's own flag
+    scripted = bool(getattr(run, "scripted", False)) and (not run.label_steps or bool(run.label_steps[-1].get("scripted", True)))
+    if getattr(run, "scripted", False):
         I.c("scripted_runs")
+        if not scripted:
+            I.c("runs_with_a_forced_history_then_natural_rounds")
+            I.m("longest_forced_history_before_natural_rounds", sum(1 for s_ in run.label_steps if s_.get("scripted")))
     exp = []
     for i in range(R):
         exp += (["repop"] if i > 0 else []) + ["stats", "opt", "label"]
@@ -576,7 +582,7 @@ def evaluate(run, want=None):
                 I.c("tables_skipped_not_pd_or_illconditioned")
             # C01 on the call itself
             C = np.asarray(step["table"], dtype=np.float64)
-            if np.all(np.isfinite(C)) and not scripted:
+            if np.all(np.isfinite(C)) and not step.get("scripted"):
                 b = step["beta"]
                 labels = step["labels"]
                 okl = len(labels) == C.shape[0] and all(isinstance(l, numbers.Integral) and 0 <= l < C.shape[1] for l in labels)
